@@ -203,7 +203,13 @@ func (n *c10Node) normalize() {
 }
 
 func c10Exec(c *c10Case) {
-	defer func() { c.P.normalize() }()
+	defer func() {
+		if r := recover(); r != nil {
+			c.Err, c.ErrOff, c.ErrEnd = fmt.Sprint("panic: ", r), -1, -1
+			c.Matches = []int{}
+		}
+		c.P.normalize()
+	}()
 	c.Spelling = c.P.spell()
 	c.PatLen = len(c.Spelling)
 	c.Probes, c.Matches = []int{}, []int{}
